@@ -271,9 +271,9 @@ Definition outcome (r : bres tbuilt) : N * N :=
   end.
 
 Theorem C05_lalr_divergence_witness :
-  map (fun n => outcome (create_table (kf_c05_conf true n))) [10; 25; 50; 100; 200]%nat
-  = [(4, 11); (4, 26); (4, 51); (4, 101); (4, 201)] /\
-  outcome (create_table (kf_c05_conf false 200)) = (0, 8).
+  map (fun n => outcome (create_table (kf_c05_conf true n))) [10; 20; 40; 80]%nat
+  = [(4, 11); (4, 21); (4, 41); (4, 81)] /\
+  outcome (create_table (kf_c05_conf false 80)) = (0, 8).
 Proof. vm_compute. split; reflexivity. Qed.
 Print Assumptions C05_lalr_divergence_witness.
 
